@@ -291,7 +291,7 @@ func (m *pkMon) check(op, res string, cur *pkSnap) {
 		if ri < 0 && res == "async" {
 			m.violate("C04/non_rollapp_never_delayed/async-on-plain-channel", op)
 		}
-		if ri >= 0 && !canon && res != "ackerr" && res != "replay" && res != "badChannel" {
+		if ri >= 0 && !canon && res != "ackerr" && res != "replay" && res != "badChannel" && res != "chanClosed" {
 			m.violate("C04/release_only_final/packet-accepted-on-non-canonical-rollapp-channel", op+" -> "+res)
 		}
 	}
@@ -439,6 +439,7 @@ func (m *pkMon) checkRelease(prev, cur *pkSnap, q, p *pkPacket, op string) {
 			ackOK = true
 		}
 	}
+	ackWriteFailed := false
 	switch q.Type {
 	case "R":
 		hasAck := false
@@ -448,9 +449,20 @@ func (m *pkMon) checkRelease(prev, cur *pkSnap, q, p *pkPacket, op string) {
 			}
 		}
 		if !hasAck {
-			m.violate("C04/release_only_final/ack-missing-after-finalization", q.Name)
+			if p.ErrText == "0" {
+				// no acknowledgement and nothing recorded about it
+				m.violate("C04/release_only_final/ack-missing-after-finalization", q.Name)
+			} else {
+				// WriteAcknowledgement failed (channel end closed / ack already stored): the code records the
+				// error in the packet and finalizes it all the same — the funds may have been released
+				ackWriteFailed = true
+				m.r.Hit("mon/finalized-recv-ack-write-failed")
+				if p.ErrText != "ackClosed" && p.ErrText != "ackExists" {
+					m.violate("C04/release_exact/unrecognised-error-text-on-failed-ack-write", q.Name+" Error class "+p.ErrText)
+				}
+			}
 		}
-		if ackOK {
+		if ackOK || ackWriteFailed {
 			addDelta(want, benef, q.Denom, q.Amount.Sub(m.bridgingFee(q.Amount)))
 			if q.Unescrow {
 				addDelta(want, esc, q.Denom, q.Amount.Neg())
@@ -470,7 +482,14 @@ func (m *pkMon) checkRelease(prev, cur *pkSnap, q, p *pkPacket, op string) {
 			m.r.Hit("mon/finalized-refund-failed")
 		}
 	}
-	m.expectDelta("C04/release_exact/unexpected-balance-change-on-finalization", prev, cur, want)
+	if ackWriteFailed && len(balDelta(prev, cur)) == 0 {
+		m.r.Hit("mon/finalized-recv-ack-write-failed-and-transfer-failed") // nothing released, nothing acknowledged
+	} else {
+		if ackWriteFailed {
+			m.r.Hit("mon/funds-released-without-acknowledgement")
+		}
+		m.expectDelta("C04/release_exact/unexpected-balance-change-on-finalization", prev, cur, want)
+	}
 	if q.Orig != "-" {
 		m.r.Hit("mon/finalized-after-fulfilment")
 		// the original recipient gets nothing further
